@@ -16,8 +16,9 @@ def run(rep, tier, seed):
         "proved: signon (credentials, application identity, FI iff ORG, CLIENTUID iff configured and version >= 103 - version symbolic over 100..299), the five *trnrq builders (every field routed to its own element, INCTRAN absent iff not asked for investment statements), the five wrap_stmtrq arms on two symbolic requests (one wrapper per request, in order, with the client's bank/broker id), the 2xx end-tag guards of __init__ and serialize, header version and body form selection in serialize",
         "request_statements' grouping (sorted/groupby by class name, message-set assembly) is NOT under a symbolic contract: it is covered by the bounded composition run (11 versions x pretty x close_elements x ORG/FID x CLIENTUID x request multisets, dry run parsed back by the library)",
         "'parsed back, contains ...' composes with C01/C02/C05 (wire forms) and C10 (converters)",
+        "'in every configuration' includes the configuration after earlier calls: the request_* methods are proved to leave the client's configuration (version, formatting flags, identifiers) unwritten on every path, raising ones included (frame obligations of the C14 contracts, run here too)",
     ]
     run_contracts(rep, "contracts.client_compose", tier, seed)
-    run_contracts(rep, "contracts.client", tier, seed, select=lambda c: c.target.endswith((".download", ".signon")), accept_props=["C14"])
+    run_contracts(rep, "contracts.client", tier, seed, select=lambda c: c.target.endswith((".download", ".signon", "._request_profile", ".request_statements", ".request_accounts", ".request_tax1099", ".request_profile")), accept_props=["C14", "C15"])
     run_contracts(rep, "contracts.client_compose_native", tier, seed)
     replay_known_findings(rep)
